@@ -148,6 +148,21 @@ def foreign_bytes(what, seed, size):
     if what == 'ebcdic':      # SEG-Y like text header (F17 class, fixed in /repo)
         card = lambda i: ('C%2d ' % i).encode('cp500') + bytes(r.choice(b'\x40\xc1\xc2\xc3\xf0\xf1') for _ in range(76))
         return b''.join(card(i + 1) for i in range(40)) + bytes(r.getrandbits(8) for _ in range(size))
+    if what == 'tif':         # plausible TIF marker (BIT / TIF-wrapped formats are recognised by it) then noise
+        nxt = r.choice([0x120, 0x120, 0x5c, 12, 0, 0xffff, 0x10000])
+        return struct.pack('<III', 0, 0, nxt) + bytes(r.getrandbits(8) for _ in range(size))
+    if what == 'sul':         # a well-formed RP66V1 storage unit label followed by noise
+        return (b'   1V1.00RECORD 8192' + b'Default Storage Set'.ljust(60)) + bytes(r.getrandbits(8) for _ in range(size))
+    if what == 'laslike':
+        return (b'~Version Information Section\nVERS.   %s : x\nWRAP. NO : y\n~A\n' % r.choice([b'2.0', b'1.2', b'3.0', b'9'])) + \
+            bytes(r.choice(b' 0123456789.-\n') for _ in range(size))
+    if what == 'lislike':     # physical record headers with arbitrary lengths/attributes, LIS-like logical record types
+        out = b''
+        while len(out) < size:
+            ln = r.choice([4, 6, 62, 128, 1024, r.randrange(0, 65536)])
+            out += struct.pack('>HH', ln, r.choice([0, 0, 1, 2, 0x8600, r.randrange(65536)])) + bytes([r.choice([128, 129, 130, 132, 64, 34, 0, r.randrange(256)]), 0]) + \
+                bytes(r.getrandbits(8) for _ in range(min(max(ln - 6, 0), 300)))
+        return out[:size]
     raise ValueError(what)
 
 
@@ -186,25 +201,28 @@ def gen_damage(rng, fmt, src):
     data = _example(src)
     n = len(data)
     x = rng.random()
-    if x < 0.22:
+    if x < 0.18:
         return {'kind': 'trunc', 'at': rng.choice(boundaries(fmt, data)), 'where': 'boundary'}
-    if x < 0.36:
+    if x < 0.28:
         return {'kind': 'trunc', 'at': rng.randrange(0, n), 'where': 'random'}
-    if x < 0.56:
+    if x < 0.50:
         cnt = rng.choice([1, 1, 2, 3, 8])
-        hi = rng.choice([n, n, 400, 100])
+        hi = rng.choice([n, n, 2000, 400, 0x130, 100])
         return {'kind': 'flip', 'bits': [[rng.randrange(0, min(hi, n)), rng.randrange(8)] for _ in range(cnt)]}
-    if x < 0.70:
-        off = rng.choice([0, 0, 1, 2, 4, 8, 12, 20, 60, 66, 76, 80, 82, 84, 0x114, 0x118]) % max(n - 8, 1)
+    if x < 0.72:
+        if rng.random() < 0.4:
+            off = rng.choice([0, 0, 1, 2, 4, 8, 12, 20, 60, 66, 76, 80, 82, 84, 0x114, 0x118]) % max(n - 8, 1)
+        else:
+            off = rng.randrange(0, min(n, rng.choice([0x140, 0x140, 1000])))     # anywhere in the leading header blocks
         ln = rng.choice([1, 2, 4, 8])
         return {'kind': 'header', 'off': off, 'bytes': bytes(rng.getrandbits(8) for _ in range(ln)).hex()}
-    if x < 0.76:
+    if x < 0.78:
         off = rng.choice([0, 4, 80, rng.randrange(0, n)])
         return {'kind': 'zero', 'off': off, 'len': rng.choice([2, 4, 16, 256])}
-    if x < 0.81:
+    if x < 0.82:
         return {'kind': 'empty'}
-    if x < 0.93:
-        return {'kind': 'foreign', 'what': rng.choice(['text', 'pdf', 'random', 'random', 'zeros', 'ebcdic']),
+    if x < 0.94:
+        return {'kind': 'foreign', 'what': rng.choice(['text', 'pdf', 'random', 'random', 'zeros', 'ebcdic', 'tif', 'sul', 'laslike', 'lislike', 'lislike']),
                 'seed': rng.randrange(1 << 30), 'size': rng.choice([1, 7, 12, 13, 79, 80, 81, 128, 300, 3200, 5000, 40000])}
     others = [f for f in FOREIGN_FILES if f not in FMT[fmt]['valid'] and not f.startswith(FMT[fmt]['valid'][0].split('/')[0] + '/data')]
     return {'kind': 'other', 'src': rng.choice(others)}
@@ -841,7 +859,7 @@ def corr_real_schedule(ctx, recipe, run, mode):
 
 def plan(ctx):
     """(fmt, n directories) for the tier; the first RP66V1 directory carries the F14 pair."""
-    return [('rp', ctx.n(4, 14)), ('lis', ctx.n(2, 7)), ('bit', ctx.n(2, 6))]
+    return [('rp', ctx.n(16, 40)), ('lis', ctx.n(10, 22)), ('bit', ctx.n(10, 22))]
 
 
 def record(ctx, recipe, run, modes, fails, single):
